@@ -70,6 +70,21 @@ def items(tier):
             out.append((f"b{k}|{lo},{hi}{st}|{';'.join(b)}",
                         prog(pres[0] + [f"do i = {lo}, {hi}{st}"] + ["  " + s for s in b] +
                              ["end do", "u = u + 1.0"])))
+    # two worksharing loops in one parallel region (private copies live across both)
+    pairs = [(["x = b(i)", "a(i) = x"], ["c(i,1) = a(i) + 1.0"]),
+             (["x = b(i)", "a(i) = x"], ["c(i,1) = x"]),
+             (["a(i) = b(i) * 2.0"], ["b(i) = a(i) + a(i-1)"]),
+             (["a(i) = b(i) * 2.0"], ["x = a(i)", "c(i,2) = x + t"]),
+             (["k = i + 1", "a(k) = b(i)"], ["k = i", "c(k,1) = a(k)"]),
+             (["if (b(i) > 0.0) x = b(i)", "a(i) = x"], ["b(i) = a(i)"]),
+             (["y = b(i)", "a(i) = y"], ["y = a(i) + y", "c(i,1) = y"]),
+             (["a(i) = real(i)"], ["t = a(i)", "c(i,3) = t"]),
+             (["a(i) = x + b(i)"], ["x = b(i)", "c(i,1) = x"]),
+             (["a(i) = y"], ["y = b(i) * 2.0", "c(i,2) = y", "x = y"])]
+    for k, (b1, b2) in enumerate(pairs):
+        out.append((f"two{k}|1,n|{';'.join(b1)}||{';'.join(b2)}",
+                    prog(pres[0] + ["do i = 1, n"] + ["  " + s for s in b1] + ["end do", "do i = 1, n"] +
+                         ["  " + s for s in b2] + ["end do", "u = u + 1.0"])))
     return out
 
 
@@ -100,14 +115,19 @@ def _build(item):
         except Unsupported as err:
             out.append({"id": cid, "status": "unsupported", "why": "ref: " + str(err)})
             continue
-        loop = r.walk(Loop)[0]
+        loops = [lp for lp in r.children if isinstance(lp, Loop)]
+        loop = loops[0]
         kind, _, sched = variant.partition(":")
         try:
             if kind == "paralleldo":
+                if len(loops) > 1:
+                    raise TransformationError("two-loop programs use the region variants")
                 OMPParallelLoopTrans(omp_schedule=sched or "auto").apply(loop)
             else:
-                OMPLoopTrans(omp_schedule=sched or "auto").apply(loop)
-                OMPParallelTrans().apply(loop.parent.parent)
+                for lp in loops:
+                    OMPLoopTrans(omp_schedule=sched or "auto").apply(lp)
+                first, last = loops[0].parent.parent, loops[-1].parent.parent
+                OMPParallelTrans().apply(first.parent.children[first.position:last.position + 1])
         except TransformationError:
             out.append({"id": cid, "status": "refused"})
             continue
@@ -124,27 +144,31 @@ def _build(item):
                 raise Unsupported("directive not at the top level of the routine")
             d = tops[dpos[0]]
             if isinstance(d, OMPParallelDoDirective):
-                do = d
+                dos = [d]
             else:
-                inner = d.dir_body.children
-                if len(inner) != 1 or not isinstance(inner[0], OMPDoDirective):
-                    raise Unsupported("parallel region is not exactly one omp do")
-                do = inner[0]
-            if len(do.dir_body.children) != 1 or not isinstance(do.dir_body.children[0], Loop):
-                raise Unsupported("omp do does not own exactly one loop")
-            if getattr(do, "collapse", None):
-                raise Unsupported("collapse")
-            if do.reductions() if hasattr(do, "reductions") and callable(do.reductions) else False:
-                raise Unsupported("reduction clause")
-            lp = do.dir_body.children[0]
+                dos = list(d.dir_body.children)
+                if not dos or not all(isinstance(x, OMPDoDirective) for x in dos):
+                    raise Unsupported("parallel region does not consist of omp do loops only")
             ex = sem.Exporter()
             decls, prelude = ex.decls(r)
             pre = prelude + [s for n in tops[:dpos[0]] for s in _aslist(ex.stmt(n))]
             post = [s for n in tops[dpos[0] + 1:] for s in _aslist(ex.stmt(n))]
-            eloop = ex.stmt(lp)
+            eloops, scheds = [], set()
+            for do in dos:
+                if len(do.dir_body.children) != 1 or not isinstance(do.dir_body.children[0], Loop):
+                    raise Unsupported("omp do does not own exactly one loop")
+                if getattr(do, "collapse", None):
+                    raise Unsupported("collapse")
+                if getattr(do, "nowait", False):
+                    raise Unsupported("nowait")
+                if do.reductions() if hasattr(do, "reductions") and callable(do.reductions) else False:
+                    raise Unsupported("reduction clause")
+                eloops.append(ex.stmt(do.dir_body.children[0]))
+                scheds.add(str(getattr(do, "omp_schedule", "auto")))
+            eloop = eloops[0]
             private = _clause_names(d, "OMPPrivateClause")
             fpriv = _clause_names(d, "OMPFirstprivateClause")
-            sch = getattr(do, "omp_schedule", "auto")
+            sch = "static" if all(x.startswith("static") for x in scheds) else "auto"
         except Unsupported as err:
             out.append({"id": cid, "status": "unsupported", "why": str(err)})
             continue
@@ -152,13 +176,14 @@ def _build(item):
             if dd["name"] == "idx":
                 dd["data"] = [[2, 1, 4, 3], [1, 1, 2, 2]]
         names = {x["name"] for x in decls}
+        lvars = {lp["var"] for lp in eloops}
         live = [x for x in LIVE if x in names and x not in private and x not in fpriv
-                and x != eloop["var"]]
+                and x not in lvars]
         case = {"id": cid, "decls": sem.merge_decls(serial["decls"], decls),
                 "dom": [[n, v] for n, v in DOM if n in names], "fills": FILLS, "live": live,
                 "subs": {"#none": {"formals": [], "locals": [], "body": []}},
-                "serial": serial["body"], "pre": pre, "post": post, "loop": eloop,
-                "private": [p for p in private if p != eloop["var"]], "firstprivate": fpriv,
+                "serial": serial["body"], "pre": pre, "post": post, "loops": eloops,
+                "private": [p for p in private if p not in lvars], "firstprivate": fpriv,
                 "sched": "static" if str(sch).startswith("static") else "any",
                 "tmax": 3 if _TIER[0] == "thorough" else 2}
         for dd in case["decls"]:
@@ -187,7 +212,36 @@ def m_conditional_firstprivate(rec, clause, detail, finding):
     return bool(rec["firstprivate"]) and "if (" in body
 
 
-MATCHERS = {"conditionally-written-scalar-firstprivate": m_conditional_firstprivate}
+def _first_access_is_read(body, name):
+    '''True if, scanning the statements in order, name is read before it is written'''
+    def mentions(e):
+        if isinstance(e, dict):
+            if e.get("k") in ("ref", "aref") and e.get("name") == name:
+                return True
+            return any(mentions(v) for v in e.values())
+        if isinstance(e, list):
+            return any(mentions(v) for v in e)
+        return False
+    for st in body:
+        if st["k"] == "assign":
+            if mentions(st["rhs"]) or mentions(st["lhs"].get("idx", [])):
+                return True
+            if st["lhs"].get("name") == name:
+                return False
+        elif mentions(st):
+            return True
+    return False
+
+
+def m_private_read_in_later_loop(rec, clause, detail, finding):
+    '''a scalar that is private for the whole parallel region is written in one
+    worksharing loop and read (before any write) in a later loop of the same region:
+    the later loop sees the thread's own or an undefined copy, not the serial value'''
+    return clause in ("SameShared", "NoUndefinedRead") and bool(rec.get("private_read_later"))
+
+
+MATCHERS = {"conditionally-written-scalar-firstprivate": m_conditional_firstprivate,
+            "private-scalar-read-in-later-loop": m_private_read_in_later_loop}
 
 
 def run(tier):
@@ -207,8 +261,10 @@ def run(tier):
         fails = res.fails.get(r["id"], [])
         for clause in sorted({f[0] for f in fails}):
             w = [f[1] for f in fails if f[0] == clause][0]
+            later = [p for p in r["case"]["private"]
+                     if any(_first_access_is_read(lp["body"], p) for lp in r["case"]["loops"][1:])]
             slim = {"id": r["id"], "source": r["src"], "after": r["after"], "private": r["private"],
-                    "firstprivate": r["firstprivate"]}
+                    "firstprivate": r["firstprivate"], "private_read_later": later}
             out.violation(slim, clause, {"input": w["val"], "fill": w["fm"], "threads": w["T"],
                                          "owner": w["owner"], "witness": w["x"],
                                          "n_failing_states": len(fails)})
